@@ -101,7 +101,18 @@ def materialise(case, d):
     for f in case["files"]:
         data = gen_content(f["class"], f["len"], f["seed"])
         if f.get("compress_args") is not None:
-            data = make_compressed(data, f["compress_args"], d)
+            plain0 = data
+            data = make_compressed(plain0, f["compress_args"], d)
+            if f.get("target_csize"):
+                # adjust the (incompressible) plaintext length until the compressed file has exactly the wanted
+                # size: file sizes at, just below and just above multiples of the tools' 8 KiB buffers
+                ln = f["len"]
+                for _ in range(10):
+                    if len(data) == f["target_csize"]:
+                        break
+                    ln = max(0, ln + f["target_csize"] - len(data))
+                    plain0 = gen_content(f["class"], ln, f["seed"])
+                    data = make_compressed(plain0, f["compress_args"], d)
         if f.get("corrupt_seed"):
             data = corrupt(data, f["corrupt_seed"])
         if f.get("truncate") is not None:
